@@ -196,6 +196,12 @@ func (b *circuitBreakerBase) retryTimeoutArrived() bool {
 	return util.CurrentTimeMillis() >= atomic.LoadUint64(&b.nextRetryTimestampMs)
 }
 
+// retryDeadlineArrived returns the retry deadline it examined and whether it has passed.
+func (b *circuitBreakerBase) retryDeadlineArrived() (uint64, bool) {
+	deadline := atomic.LoadUint64(&b.nextRetryTimestampMs)
+	return deadline, util.CurrentTimeMillis() >= deadline
+}
+
 func (b *circuitBreakerBase) updateNextRetryTimestamp() {
 	next := util.CurrentTimeMillis() + uint64(b.retryTimeoutMs)
 	// The deadline only ever moves forward, so a delayed caller can never
@@ -285,11 +291,17 @@ func (b *circuitBreakerBase) fromClosedWordToOpen(closedWord int32, snapshot int
 
 // fromOpenToHalfOpen updates circuit breaker state machine from open to half-open.
 // Return true only if current goroutine successfully accomplished the transformation.
-func (b *circuitBreakerBase) fromOpenToHalfOpen(openWord int32, ctx *base.EntryContext) bool {
+func (b *circuitBreakerBase) fromOpenToHalfOpen(openWord int32, ctx *base.EntryContext, deadline uint64) bool {
 	if b.state.casWord(openWord, HalfOpen) {
 		for _, listener := range stateChangeListeners {
 			listener.OnTransformToHalfOpen(Open, *b.rule)
 		}
+		// The deadline of the open period that ends here is used up. It must not outlive the period: the
+		// deadline only ever moves forward (see updateNextRetryTimestamp), and after the clock was set back
+		// a LATER open period found the old deadline ahead of its own and lasted until then instead of its
+		// retry timeout. (Cleared only if it is still the value examined: a failed probe may already have
+		// re-opened the breaker and published a new one.)
+		atomic.CompareAndSwapUint64(&b.nextRetryTimestampMs, deadline, 0)
 
 		entry := ctx.Entry()
 		if entry == nil {
@@ -408,7 +420,7 @@ func (b *slowRtCircuitBreaker) TryPass(ctx *base.EntryContext) bool {
 		return true
 	} else if curStatus == Open {
 		// switch state to half-open to probe if retry timeout
-		if b.retryTimeoutArrived() && b.fromOpenToHalfOpen(word, ctx) {
+		if deadline, arrived := b.retryDeadlineArrived(); arrived && b.fromOpenToHalfOpen(word, ctx, deadline) {
 			return true
 		}
 	} else if curStatus == HalfOpen && b.probeNumber > 0 {
@@ -608,7 +620,7 @@ func (b *errorRatioCircuitBreaker) TryPass(ctx *base.EntryContext) bool {
 		return true
 	} else if curStatus == Open {
 		// switch state to half-open to probe if retry timeout
-		if b.retryTimeoutArrived() && b.fromOpenToHalfOpen(word, ctx) {
+		if deadline, arrived := b.retryDeadlineArrived(); arrived && b.fromOpenToHalfOpen(word, ctx, deadline) {
 			return true
 		}
 	} else if curStatus == HalfOpen && b.probeNumber > 0 {
@@ -801,7 +813,7 @@ func (b *errorCountCircuitBreaker) TryPass(ctx *base.EntryContext) bool {
 		return true
 	} else if curStatus == Open {
 		// switch state to half-open to probe if retry timeout
-		if b.retryTimeoutArrived() && b.fromOpenToHalfOpen(word, ctx) {
+		if deadline, arrived := b.retryDeadlineArrived(); arrived && b.fromOpenToHalfOpen(word, ctx, deadline) {
 			return true
 		}
 	} else if curStatus == HalfOpen && b.probeNumber > 0 {
